@@ -538,9 +538,10 @@ func quantifyNFA(n *auto.NFA, q any) *auto.NFA {
 		low, up := rep.p, rep.q
 
 		// An invalid range has been reported as an error and the result is going to be discarded.
-		// Its lower bound can be arbitrarily large: the operand is not repeated more often than the upper bound says.
+		// Its bounds can be arbitrarily large: the operand is not repeated at all.
 		if up != nil && low > *up {
-			low = *up
+			nfa = n
+			break
 		}
 
 		ns := []*auto.NFA{}
